@@ -1,7 +1,8 @@
 #!/usr/bin/env python3
-"""tools/mutants.py [id-substring …] — applies each catalogue mutant to /repo's working
-tree, builds, runs the repository suite and the named quick checks, restores /repo,
-and appends one line per mutant to /verif/mutants/results.tsv."""
+"""tools/mutants.py [id-substring …] — applies each catalogue mutant to a scratch worktree
+of /repo's HEAD (/tmp/repo-mut), builds, runs the repository suite and the named quick
+checks (VERIF_REPO=<worktree>), restores the worktree, and appends one line per mutant to
+/verif/mutants/results.tsv."""
 import subprocess, sys, os, json, time
 sys.path.insert(0, '/verif/mutants')
 env = dict(os.environ, GOFLAGS='-mod=mod', GOPROXY='off', GOSUMDB='off', GOTOOLCHAIN='local')
@@ -10,8 +11,13 @@ sel = sys.argv[1:]
 def sh(cmd, cwd, timeout=1800):
     p = subprocess.run(cmd, shell=True, cwd=cwd, env=env, capture_output=True, text=True, errors='replace', timeout=timeout)
     return p.returncode, p.stdout + p.stderr
-if subprocess.run('git -C /repo status --porcelain', shell=True, capture_output=True, text=True).stdout.strip():
-    print('/repo not clean'); sys.exit(2)
+WT = '/tmp/repo-mut'
+head = subprocess.check_output('git -C /repo rev-parse HEAD', shell=True, text=True).strip()
+if not os.path.isdir(WT):
+    subprocess.run(f'git -C /repo worktree add -q --detach {WT} {head}', shell=True)
+subprocess.run(f'git -C {WT} reset -q --hard {head} && git -C {WT} clean -fdq', shell=True)
+env['VERIF_REPO'] = WT
+env['VERIF_EVIDENCE_DIR'] = '/tmp/ev-mutants'
 # helper needed by one mutant
 COPYOVER = '''
 func copyOver(fs afero.Fs, from, to string) error {
@@ -34,7 +40,7 @@ out = open('/verif/mutants/results.tsv', 'a')
 for mu in M:
     if sel and not any(s in mu['id'] for s in sel):
         continue
-    path = os.path.join('/repo', mu['file'])
+    path = os.path.join(WT, mu['file'])
     src = open(path).read()
     if src.count(mu['old']) != 1:
         print(mu['id'], 'ANCHOR-NOT-FOUND', src.count(mu['old'])); out.write(f"{mu['id']}\t{mu['prop']}\tanchor-not-found\n"); continue
@@ -43,10 +49,10 @@ for mu in M:
         new += COPYOVER
     open(path, 'w').write(new)
     try:
-        rc, o = sh('go build ./... && go build -tags verif ./...', '/repo')
+        rc, o = sh('go build ./... && go build -tags verif ./...', WT)
         if rc != 0:
             print(mu['id'], 'DOES-NOT-BUILD', o[-300:]); out.write(f"{mu['id']}\t{mu['prop']}\tdoes-not-build\n"); continue
-        rc, o = sh('go test -vet=off -count=1 ./... 2>&1 | tail -5', '/repo')
+        rc, o = sh('go test -vet=off -count=1 ./... 2>&1 | tail -5', WT)
         suite = 'suite-pass' if 'FAIL' not in o else 'suite-FAILS'
         res = []
         for c in mu['checks']:
@@ -57,4 +63,4 @@ for mu in M:
         line = f"{mu['id']}\t{mu['prop']}\t{suite}\t" + '\t'.join(res)
         print(line); out.write(line + '\n'); out.flush()
     finally:
-        subprocess.run('git -C /repo checkout -- . && git -C /repo clean -fdq', shell=True)
+        subprocess.run(f'git -C {WT} checkout -- . && git -C {WT} clean -fdq', shell=True)
